@@ -1,0 +1,23 @@
+//go:build !verif
+
+package hclsyntax
+
+import (
+	"github.com/hashicorp/hcl/v2"
+	"github.com/zclconf/go-cty/cty"
+)
+
+// Instrumentation points of AnonSymbolExpr for the verification harness in
+// /verif (property C17). Without the "verif" build tag they are empty
+// functions, which the compiler inlines away: behaviour is unchanged.
+// The recording implementations are in anon_hook_verif.go.
+
+const (
+	verifAnonSet   = 0
+	verifAnonGet   = 1
+	verifAnonClear = 2
+)
+
+func (e *AnonSymbolExpr) verifAnonEvent(kind int, ctx *hcl.EvalContext, val cty.Value) {}
+
+func verifAnonYield() {}
